@@ -32,6 +32,7 @@ type Engine struct {
 	wsum      map[*ssa.Function][]bool
 	assumed   map[string]bool
 	loadErrs  []string
+	renameNotes []string
 }
 
 func (e *Engine) noteAssumed(s string) {
